@@ -521,10 +521,17 @@ class ConstructedAsn1Type(Asn1Type):
         if sizeSpec:
             subtypeSpec = kwargs.pop('subtypeSpec', self.subtypeSpec)
             if subtypeSpec:
-                subtypeSpec = sizeSpec
+                # both apply
+                try:
+                    subtypeSpec += sizeSpec
+
+                except TypeError:
+                    # a bare constraint, not a set of them
+                    subtypeSpec = constraint.ConstraintsIntersection(
+                        subtypeSpec, sizeSpec)
 
             else:
-                subtypeSpec += sizeSpec
+                subtypeSpec = sizeSpec
 
             kwargs['subtypeSpec'] = subtypeSpec
 
